@@ -1471,9 +1471,18 @@ class Interp:
         # logging calls are dropped with their arguments (DESIGN 2.1)
         f = node.func
         if isinstance(f, ast.Attribute) and isinstance(f.value, ast.Name) and f.value.id in LOGGER_NAMES:
-            self.ctx.dropped.add("logger call (arguments not evaluated)")
             if f.attr == "isEnabledFor":
+                self.ctx.dropped.add("logger call (the call itself; isEnabledFor is False)")
                 return False
+            # the call itself is dropped; its arguments are evaluated, because evaluating them is what the function
+            # does whether or not anything is logged: an argument that raises (data[1] of a one-byte frame) raises
+            # out of the function.  An argument outside the subset is skipped (assumed not to raise) and listed.
+            self.ctx.dropped.add("logger call (the call itself; its arguments are evaluated for exceptions)")
+            for a in list(node.args) + [k.value for k in node.keywords if k.arg != "exc_info"]:
+                try:
+                    self.eval(a, env)
+                except Unsupported as e:
+                    self.ctx.dropped.add(f"logger argument outside the subset, assumed not to raise: {ast.unparse(a)[:60]}")
             return None
         # special forms of the contract language
         if isinstance(f, ast.Name):
